@@ -107,58 +107,59 @@ Section Plain.
     unfold pc, io in *. destruct (x_fam x); [apply spi126_plain|apply spi127_plain]; assumption.
   Qed.
 
-  (* plainP want have p: every transaction of p is plain; on every path to a successful return the items commanded along the
-     path, together with `have`, include `want` *)
-  Inductive plainP {A} (want : list item) : list item -> prog A -> Prop :=
-  | PRet have a : incl want have -> plainP want have (Ret a)
-  | PFail have e : plainP want have (Fail e)
-  | PSpi have segs k h : seg_w segs <> [] -> pc (seg_w segs) = true ->
-      (forall r, plainP want (match io (seg_w segs) with Some i => i :: have | None => have end) (k r)) ->
-      (forall e, plainP want have (h e)) -> plainP want have (Do (Spi segs) k h)
-  | PIv have c k h : c <> IvReset -> c <> IvIrq -> (forall r, plainP want have (k r)) -> (forall e, plainP want have (h e)) ->
-      plainP want have (Do (Iv c) k h)
-  | PDelay have ns k h : (forall r, plainP want have (k r)) -> plainP want have (Do (DelayNs ns) k h).
+  (* errors a plain program may end with: anything but the chip-reported timeouts (and never a cancellation) *)
+  Definition plain_err (e : rerr) : Prop := e <> ETransmitTimeout /\ e <> EReceiveTimeout /\ e <> ECancelled.
 
-  Lemma plainP_weaken A want (p : prog A) have : plainP want have p -> forall have', incl have have' -> plainP want have' p.
+  (* plainP E want have p: every transaction of p is plain; on every path to a successful return the items commanded along the
+     path, together with `have`, include `want` *)
+  Definition pin_only (e : rerr) : Prop := e = ESpi \/ e = EBusy.
+  Inductive plainP {A} (E : rerr -> Prop) (want : list item) : list item -> prog A -> Prop :=
+  | PRet have a : incl want have -> plainP E want have (Ret a)
+  | PFail have e : E e -> plainP E want have (Fail e)
+  | PSpi have segs k h : seg_w segs <> [] -> pc (seg_w segs) = true ->
+      (forall r, plainP E want (match io (seg_w segs) with Some i => i :: have | None => have end) (k r)) ->
+      plainP E want have (h ESpi) -> plainP E want have (Do (Spi segs) k h)
+  | PIv have c k h : c <> IvReset -> c <> IvIrq -> (forall r, plainP E want have (k r)) -> (c = IvBusy -> plainP E want have (h EBusy)) ->
+      plainP E want have (Do (Iv c) k h)
+  | PDelay have ns k h : (forall r, plainP E want have (k r)) -> plainP E want have (Do (DelayNs ns) k h).
+
+  Lemma plainP_weaken A E want (p : prog A) have : plainP E want have p -> forall have', incl have have' -> plainP E want have' p.
   Proof.
-    induction 1 as [have a Hi|have e|have segs k h NE P Hk IHk Hh IHh|have c k h N1 N2 Hk IHk Hh IHh|have ns k h Hk IHk]; intros have' Hincl.
+    induction 1 as [have a Hi|have e He|have segs k h NE P Hk IHk Hh IHh|have c k h N1 N2 Hk IHk Hh IHh|have ns k h Hk IHk]; intros have' Hincl.
     - apply PRet. intros i Hi'. apply Hincl, Hi, Hi'.
-    - apply PFail.
+    - apply PFail. exact He.
     - apply PSpi; try assumption.
       + intros r. apply IHk. destruct (io (seg_w segs)); [|exact Hincl]. intros j [<-|Hj]; [left; reflexivity|right; apply Hincl, Hj].
-      + intros e. apply IHh. exact Hincl.
-    - apply PIv; try assumption; intros; [apply IHk|apply IHh]; exact Hincl.
+      + apply IHh. exact Hincl.
+    - apply PIv; try assumption; intros; [apply IHk|apply IHh; [assumption|]]; exact Hincl.
     - apply PDelay. intros r. apply IHk. exact Hincl.
   Qed.
-  Lemma plainP_want_nil A (p : prog A) want have : plainP want have p -> plainP [] have p.
-  Proof.
-    induction 1; [apply PRet; intros i []|apply PFail|apply PSpi; assumption|apply PIv; assumption|apply PDelay; assumption].
-  Qed.
 
-  Lemma plainP_bind A B mid want (p : prog A) (f : A -> prog B) have :
-    plainP mid have p -> (forall a, plainP want (mid ++ have) (f a)) -> plainP want have (bind p f).
+  Lemma plainP_bind A B E mid want (p : prog A) (f : A -> prog B) have :
+    plainP E mid have p -> (forall a, plainP E want (mid ++ have) (f a)) -> plainP E want have (bind p f).
   Proof.
-    intros Hp Hf. induction Hp as [have a Hi|have e|have segs k h NE P Hk IHk Hh IHh|have c k h N1 N2 Hk IHk Hh IHh|have ns k h Hk IHk]; cbn [bind].
+    intros Hp Hf. induction Hp as [have a Hi|have e He|have segs k h NE P Hk IHk Hh IHh|have c k h N1 N2 Hk IHk Hh IHh|have ns k h Hk IHk]; cbn [bind].
     - eapply plainP_weaken; [apply Hf|]. intros i Hi'. apply in_app_or in Hi'. destruct Hi' as [H1|H1]; [apply Hi, H1|exact H1].
-    - apply PFail.
+    - apply PFail. exact He.
     - apply PSpi; try assumption.
       + intros r. apply IHk. intros a. eapply plainP_weaken; [apply Hf|]. intros i Hi'. apply in_or_app. apply in_app_or in Hi'.
         destruct Hi' as [H1|H1]; [left; exact H1|right]. destruct (io (seg_w segs)); [right; exact H1|exact H1].
-      + intros e. apply IHh. exact Hf.
-    - apply PIv; try assumption; intros; [apply IHk|apply IHh]; exact Hf.
+      + apply IHh. exact Hf.
+    - apply PIv; try assumption; intros; [apply IHk|apply IHh; [assumption|]]; exact Hf.
     - apply PDelay. intros r. apply IHk. exact Hf.
   Qed.
 
-  Theorem plain_sound A want (p : prog A) have : plainP want have p -> forall (Q : A + rerr -> drv -> mon -> Prop) d m,
+  Theorem plain_sound A E want (p : prog A) have : plainP E want have p -> forall (Q : A + rerr -> drv -> mon -> Prop) d m,
     okm m -> ready m -> (forall i, In i have -> valid m i = true) ->
     (forall r m', prog_le m m' -> (forall i, In i have -> valid m' i = true) ->
-                  (forall a, r = inl a -> forall i, In i want -> valid m' i = true) -> Q r d m') ->
+                  (forall a, r = inl a -> forall i, In i want -> valid m' i = true) ->
+                  (forall e, r = inr e -> E e) -> Q r d m') ->
     wp x p Q d m.
   Proof.
-    induction 1 as [have a Hi|have e|have segs k h NE P Hk IHk Hh IHh|have c k h N1 N2 Hk IHk Hh IHh|have ns k h Hk IHk];
+    induction 1 as [have a Hi|have e He|have segs k h NE P Hk IHk Hh IHh|have c k h N1 N2 Hk IHk Hh IHh|have ns k h Hk IHk];
       intros Q d m Ho Hr Hv HQ; cbn [wp].
-    - apply HQ; [apply prog_le_refl, Ho|exact Hv|]. intros a0 _ i Hi'. apply Hv, Hi, Hi'.
-    - apply HQ; [apply prog_le_refl, Ho|exact Hv|]. intros a0 E. discriminate E.
+    - apply HQ; [apply prog_le_refl, Ho|exact Hv| |intros e Eq; discriminate Eq]. intros a0 _ i Hi'. apply Hv, Hi, Hi'.
+    - apply HQ; [apply prog_le_refl, Ho|exact Hv|intros a0 Eq; discriminate Eq|]. intros e0 Eq. injection Eq as <-. exact He.
     - split; [apply IHh; assumption|]. intros ts got Hm. pose proof (segs_match_written _ _ _ Hm) as EW.
       rewrite spi_plain; [|exact Hr|rewrite EW; exact NE|rewrite EW; exact P]. rewrite EW.
       destruct (io (seg_w segs)) as [i0|].
@@ -166,10 +167,22 @@ Section Plain.
         * apply L.
         * eapply prog_le_ready; [exact L|exact Hr].
         * intros i [<-|Hi']; [apply add_item_valid|]. apply L. apply Hv, Hi'.
-        * intros r m' L' Hv' Hw. apply HQ; [eapply prog_le_trans; eassumption| |exact Hw]. intros i Hi'. apply Hv'. right. exact Hi'.
+        * intros r m' L' Hv' Hw He. apply HQ; [eapply prog_le_trans; eassumption| |exact Hw|exact He]. intros i Hi'. apply Hv'. right. exact Hi'.
       + apply IHk; assumption.
     - destruct c; try (exfalso; apply N1; reflexivity); try (exfalso; apply N2; reflexivity);
-        try (apply IHk; assumption); (split; [apply IHh; assumption|apply IHk; assumption]).
+        try (apply IHk; assumption); (split; [apply IHh; [reflexivity|assumption..]|apply IHk; assumption]).
     - apply IHk; assumption.
+  Qed.
+
+  (* the shape used by the LoRa-layer proofs *)
+  Definition is_ok {A} (r : A + rerr) : Prop := match r with inl _ => True | inr _ => False end.
+  Definition plain_spec {A} (E : rerr -> Prop) (want : list item) (p : prog A) : Prop :=
+    forall (Q : A + rerr -> drv -> mon -> Prop) d m, okm m -> ready m ->
+      (forall r m', prog_le m m' -> (is_ok r -> forall i, In i want -> valid m' i = true) -> (forall e, r = inr e -> E e) -> Q r d m') ->
+      wp x p Q d m.
+  Lemma plain_spec_of A E want (p : prog A) : plainP E want [] p -> plain_spec E want p.
+  Proof.
+    intros HP Q d m Ho Hr HQ. eapply plain_sound; [exact HP|exact Ho|exact Hr|intros i []|].
+    intros r m' L _ Hw He. apply HQ; [exact L| |exact He]. intros Hok i Hi. destruct r as [a|e]; [|destruct Hok]. eapply Hw; [reflexivity|exact Hi].
   Qed.
 End Plain.
